@@ -15,7 +15,8 @@ except ImportError:
 RULE = ("for every modelled class and random nested expressions (depth <= 3): consume k in {0,1,2,3,5,8,len,len+2,...} values, call "
         "reset() once or twice (or all()), and compare the next N outputs (a) with a freshly built, identically seeded instance of "
         "the same constructor expression (oracle on the implementation alone) and (b) with the Lean model. non-trivial = k >= 1 and "
-        "the pattern has own state or nested patterns; distinct by (expression, k, reset mode)")
+        "the pattern has own state or nested patterns; distinct by (expression, k, reset mode)"
+        " Also (implementation-only oracles): nested structures that change between resets; chainable configuration; all()/len() at repeat boundaries; patterns built through other construction routes (bracket notation, Pattern.pattern, event-dictionary values, lists filled after the sequence exists); stochastic inputs seeded AFTER they were wrapped, then rewound, against instances seeded before the wrapping.")
 ASSUMPTIONS = ["'identically seeded' = the same seed passed to every stochastic node of the expression",
                "list(p) is not used (it calls __len__ -> all() -> reset())"]
 
